@@ -1,6 +1,7 @@
-(* Property C11 -- statements only (function level; the -c filter equation over whole captures is C11_filter in Properties/C11Filter.v). *)
+(* Property C11 -- statements only: the check on one packet (C11_tcp, C11_udp) and the -c filter equation over whole captures (C11_filter). *)
 From Coq Require Import ZArith List Lia.
-Require Import PyLib Checksum Rfc1071 C11P.
+Require Import PyLib Crypto Packet Checksum Rfc1071 Main C11P C11FilterP.
+From Coq Require Import List Bool.
 Open Scope Z_scope.
 
 (* TCP: checksum field at offset 16 of the segment; UDP: at offset 6.  The IPv6 pseudo-header names the upper-layer protocol (6, 17:
@@ -13,3 +14,16 @@ Print Assumptions C11_tcp.
 Theorem C11_udp : forall p, wf_pkt 6 p -> calculate_checksum_udp p = Ok (checksum_valid (spec_pseudo 17 p) (seg p)).
 Proof. intros p W. apply check_is_rfc1071; [exact W|lia|reflexivity|lia]. Qed.
 Print Assumptions C11_udp.
+
+(* The capture level.  With -c the run -- reading, decrypting, building the output -- on a capture equals the run without -c on the
+   capture from which the TCP and UDP packets that fail the check have been removed (`passes`: an empty payload is never checked);
+   decryption-secrets blocks and all other packets are untouched.  `answers`: the check returns a verdict, which it does for every
+   well-formed packet (C11_answers, from C11_tcp / C11_udp). *)
+Theorem C11_filter : forall C tbl parts o ftable kl items, opt_checksum o = true -> Forall answers items ->
+  run C tbl parts o ftable kl items = run C tbl parts (without_c o) ftable kl (filter passes items).
+Proof. exact checksum_filter_run. Qed.
+Print Assumptions C11_filter.
+
+Theorem C11_answers : forall p, match p_kind p with L4Tcp => wf_pkt 16 (l4pkt_of p) | L4Udp => wf_pkt 6 (l4pkt_of p) | L4Other => True end -> answers (IPacket p).
+Proof. exact wf_answers. Qed.
+Print Assumptions C11_answers.
